@@ -194,7 +194,7 @@ def untile_content(case, flow, zranks, content):
         env = dict(zip(zranks, pt))
         if tile:
             x = tile["rank"]
-            k = tuple(env[x + ".0"] if i == x else env[i] for i in out)
+            k = tuple(env.get(x + ".0", env.get(x)) if i == x else env[i] for i in out)
         else:
             k = tuple(env[i] for i in out)
         res[k] = res.get(k, 0) + v
@@ -276,6 +276,14 @@ def run_kernel(case, tensors, flow, counts=None, abort_at=None, expect=None, hoo
             t = t.swizzleRanks(want)
         cur[nm] = (t.getRoot(), want)
     zr = [i for i in order if i in out]
+    tile = flow.get("tile")
+    zflat = bool(flow.get("z_untiled")) and bool(tile) and "splits" not in tile and (tile["rank"] + ".0") in out
+    if zflat:
+        # the output keeps its un-tiled rank: it is populated once per tile (tile fibers carry absolute coordinates)
+        x = tile["rank"]
+        out = tuple(i for i in out if i != x + ".1")
+        zr = [(x if i == x + ".0" else i) for i in order if i in out]
+        shapes = dict(shapes, **{x: shapes[x + ".0"]})
     zproto = tensors.get("__Z__") if flow.get("always_swizzle") else None
     if zproto is not None and "tile" in flow and not flow.get("tile") and len(zr) >= 1:
         # the program declares its (empty) output once and takes a copy in the loop order of each execution
